@@ -284,8 +284,18 @@ func checkC20(c c20Case) verdict {
 				args = args[:len(args)-1]
 				labels = append(labels, "too-few-args")
 			} else if call.Arity > 0 {
-				args = append(args, "extra")
-				labels = append(labels, "too-many-args")
+				// one surplus argument too many is a wrong count whatever it is: a string, undefined (once or twice), null
+				switch call.Arity {
+				case 2:
+					args = append(args, badValue("undefined"))
+				case 3:
+					args = append(args, badValue("undefined"), badValue("undefined"))
+				case 4:
+					args = append(args, badValue("null"))
+				default:
+					args = append(args, "extra")
+				}
+				labels = append(labels, fmt.Sprintf("too-many-args=%d", call.Arity))
 			} else {
 				args[call.BadPos] = badValue(call.BadVal)
 				labels = append(labels, "bad="+call.BadVal)
@@ -414,7 +424,7 @@ func checkC20(c c20Case) verdict {
 }
 
 var c20Main = newPart("C20", "calls",
-	"rapid: call lists (a pure function of the seed) executed by Node against the wasm module built from the working tree and loaded through otp-js/src/index.js; each call is made via globalThis.<name> AND via the object the package exports, followed by a well-formed probe; arguments: counters/timestamps 0..2^53 (boundaries 2^31, 2^32, 2^53), fractional numbers (truncated; a quarter of the lists are related calls under one secret and parameter set with fractions on the time and on the period independently), digits '6','8','9','10' and unknown spellings, three hashes and unknown spellings, periods 1..3600, skews 0..10, codes at window distance -(s+2)..+(s+2) and edited; malformed: every argument position x {undefined, null, NaN, -1, -1.5, 1e300, 2^63, +-Infinity, true, {}, [], a BigInt, a boxed String / Number object, a Symbol, a function, a Date, wrong-kind string/number, empty string}, too few / too many arguments, skew 11, period 0; plus two grids run through the same check (malformed-grid: every function x argument position x odd value x contexts period {1,7,10,30,3600} x skew {0,1,10}; related-fractions: runs of steps with fractional periods and instants on both sides of every boundary under one secret); oracle: native library AND independent reference for well-formed calls, 'error:' string for malformed ones, probe still correct; non-trivial = distance != 0 or digits != '6' or edited code or fractional number or malformed",
+	"rapid: call lists (a pure function of the seed) executed by Node against the wasm module built from the working tree and loaded through otp-js/src/index.js; each call is made via globalThis.<name> AND via the object the package exports, followed by a well-formed probe; arguments: counters/timestamps 0..2^53 (boundaries 2^31, 2^32, 2^53), fractional numbers (truncated; a quarter of the lists are related calls under one secret and parameter set with fractions on the time and on the period independently), digits '6','8','9','10' and unknown spellings, three hashes and unknown spellings, periods 1..3600, skews 0..10, codes at window distance -(s+2)..+(s+2) and edited; malformed: every argument position x {undefined, null, NaN, -1, -1.5, 1e300, 2^63, +-Infinity, true, {}, [], a BigInt, a boxed String / Number object, a Symbol, a function, a Date, wrong-kind string/number, empty string}, too few / too many arguments (the surplus one a string, undefined once or twice, null), skew 11, period 0; plus two grids run through the same check (malformed-grid: every function x argument position x odd value x contexts period {1,7,10,30,3600} x skew {0,1,10}; related-fractions: runs of steps with fractional periods and instants on both sides of every boundary under one secret); oracle: native library AND independent reference for well-formed calls, 'error:' string for malformed ones, probe still correct; non-trivial = distance != 0 or digits != '6' or edited code or fractional number or malformed",
 	checkC20)
 
 func drawC20Call(t *rapid.T) c20Call {
@@ -454,7 +464,6 @@ func drawC20Call(t *rapid.T) c20Call {
 		if rapid.IntRange(0, 5).Draw(t, "sibDigQ") == 0 {
 			c.SibDig = rapid.SampledFrom([]int{6, 8, 9, 10, 7}).Draw(t, "sibDig")
 		}
-		centre := c.N
 		if c.Fn == "validateTOTP" {
 			if rapid.IntRange(0, 3).Draw(t, "nearZero") == 0 && c.Skew > 0 {
 				// instants whose window reaches below step 0 (distances then wrap modulo 2^64)
@@ -465,13 +474,17 @@ func drawC20Call(t *rapid.T) c20Call {
 			if c.N > 1<<53 {
 				c.N = 1 << 52
 			}
-			centre = c.N / uint64(c.Period)
 		} else if c.N > 1<<53-20 {
 			c.N = 1<<53 - 20
-			centre = c.N
 		}
-		if c.Dist < 0 && centre < uint64(-c.Dist) && c.Fn == "validateHOTP" {
-			c.Dist = -c.Dist
+		if c.Fn == "validateHOTP" && c.Skew > 0 && rapid.IntRange(0, 3).Draw(t, "ctrNearZero") == 0 {
+			// counters below the window size: the part of the window below counter 0 does not exist (C03: max(0, c-s)); the
+			// submitted code at a negative distance is the code of the WRAPPED counter 2^64-k, which an unsigned walk without the
+			// guard would accept
+			c.N = uint64(rapid.IntRange(0, c.Skew).Draw(t, "ctrSmall"))
+			if rapid.Bool().Draw(t, "ctrBelow") {
+				c.Dist = -int(c.N) - rapid.IntRange(1, c.Skew+1).Draw(t, "ctrWrap")
+			}
 		}
 	}
 	if c.Fn == "generateOTPURL" {
@@ -491,7 +504,7 @@ func drawC20Call(t *rapid.T) c20Call {
 		case 0:
 			c.Arity = -1
 		case 1:
-			c.Arity = 1
+			c.Arity = rapid.IntRange(1, 4).Draw(t, "arityKind")
 		default:
 			c.BadPos = rapid.IntRange(0, nargs-1).Draw(t, "badPos")
 			if isStringPos(c.Fn, c.BadPos) {
@@ -710,7 +723,7 @@ func TestC20_MalformedGrid(t *testing.T) {
 				base := c20Call{Fn: fn, Key: key, Sp: gen.Spelling{Pad: 1}, N: uint64(period) * 1000, Dig: "6", Alg: "SHA1", Period: period, Skew: skew, BadPos: -1, Type: "totp", Issuer: "I", Account: "a"}
 				nargs := len(base.args("000000"))
 				var cases []c20Call
-				for _, ar := range []int{-1, 1} {
+				for _, ar := range []int{-1, 1, 2, 3, 4} {
 					c := base
 					c.Arity = ar
 					cases = append(cases, c)
